@@ -9,6 +9,7 @@ are the ones the driver executes against the real `BinaryPolynomial` / `BinaryCo
 import OFV.Proofs.C09
 import OFV.Proofs.C09WF
 import OFV.Proofs.C09Parity
+import OFV.Proofs.C09Parse
 
 namespace OFV.C09
 open OFV.Model.C09 OFV.Spec.C09
@@ -59,6 +60,18 @@ theorem eval_pow (w : Nat → Bool) (p : Poly) (k : Nat) :
 /-- `_canonical_term` does not change the value of a monomial. -/
 theorem eval_canonical_term (w : Nat → Bool) (t : Mono) : evalMono w (canonTerm t) = evalMono w t :=
   evalMono_canonTerm w t
+
+/-- `BinaryPolynomial('… + …')` (the tokens as the harness cuts them, `tokVal`: a constant is its
+parity, `w<i>` the variable): when every summand has at least one token, the constructed
+polynomial is the XOR over the summands of the product of their tokens.  (All decoders of
+binary_codes.py are built through this constructor.) -/
+theorem string_constructor_sound (w : Nat → Bool) (sm : List (List Tok)) (p : Poly)
+    (h : ofString sm = .ok p) (hne : ∀ toks ∈ sm, toks ≠ []) :
+    evalPoly w p = sm.foldr (fun toks a => xor (summandVal w toks) a) false :=
+  ofString_sound' w sm p h hne
+
+example : ofString [[.var 1, .const 1, .var 2], [.const 3], [.var 1, .const 0]] = .ok [[some 1, some 2], [none]] := by
+  rfl
 
 /-! ## canonical form (the invariant the `fix:` commit 35a1f8fb established)
 
